@@ -141,3 +141,40 @@ Proof.
   split; [rewrite (SQ _ Hpos); ring|]. split; [|reflexivity].
   transitivity (d * ((nx*nx + ny*ny + nz*nz) - 1)); [unfold d; ring| rewrite U; ring].
 Qed.
+
+(* ---- line / sphere (generated intersect_line3d_sphere): the quadratic in the line parameter, and both roots returned on the sphere *)
+Definition on3u (l : LR3) (u : Q) : V3 :=
+  mkV3 (v3x (lr3p l) + u * v3x (lr3v l)) (v3y (lr3p l) + u * v3y (lr3v l)) (v3z (lr3p l) + u * v3z (lr3v l)).
+Definition sph_a (l : LR3) : Q := Vector3D_magnitude_squared (lr3v l).
+Definition sph_b (l : LR3) (s : SphereR) : Q :=
+  2 * (v3x (lr3v l) * (v3x (lr3p l) - v3x (sp_c s)) + v3y (lr3v l) * (v3y (lr3p l) - v3y (sp_c s)) + v3z (lr3v l) * (v3z (lr3p l) - v3z (sp_c s))).
+Definition sph_c (l : LR3) (s : SphereR) : Q :=
+  Vector3D_magnitude_squared (sp_c s) + Vector3D_magnitude_squared (lr3p l) - 2 * Vector3D_dot (sp_c s) (lr3p l) - sp_r s * sp_r s.
+
+Lemma sphere_quadratic l s u :
+  sqd3 (on3u l u) (sp_c s) - sp_r s * sp_r s == sph_a l * u * u + sph_b l s * u + sph_c l s.
+Proof.
+  unfold sqd3, dot3, sub3, on3u, sph_a, sph_b, sph_c, Vector3D_magnitude_squared, Vector3D_dot. cbn [v3x v3y v3z]. ring.
+Qed.
+
+Theorem line_sphere_two_points_on_sphere qsqrt l s :
+  let a := sph_a l in let b := sph_b l s in let c := sph_c l s in let det := b * b - 4 * a * c in
+  let u1 := (- b + qsqrt det) / (2 * a) in let u2 := (- b - qsqrt det) / (2 * a) in
+  ~ a == 0 -> Qlt_bool det 0 = false -> qsqrt det * qsqrt det == det ->
+  LineSegment3D__u_in l u1 = true -> LineSegment3D__u_in l u2 = true -> Qeq_bool u1 u2 = false ->
+  intersect_line3d_sphere_seg qsqrt l s = Some (inr (on3u l u1, on3u l u2)) /\
+  sqd3 (on3u l u1) (sp_c s) == sp_r s * sp_r s /\ sqd3 (on3u l u2) (sp_c s) == sp_r s * sp_r s.
+Proof.
+  cbv zeta. intros Ha Hd Hs I1 I2 Ne.
+  split.
+  - unfold intersect_line3d_sphere_seg. cbv zeta.
+    fold (sph_a l). fold (sph_b l s). fold (sph_c l s).
+    rewrite Hd, I1, I2. cbn [negb orb andb]. rewrite Ne. cbn [andb]. reflexivity.
+  - set (a := sph_a l) in *. set (b := sph_b l s) in *. set (c := sph_c l s) in *. set (sq := qsqrt (b * b - 4 * a * c)) in *.
+    assert (R1 : a * ((- b + sq) / (2 * a)) * ((- b + sq) / (2 * a)) + b * ((- b + sq) / (2 * a)) + c == 0).
+    { transitivity ((sq * sq - (b * b - 4 * a * c)) / (4 * a)); [field; exact Ha|]. rewrite Hs. field. exact Ha. }
+    assert (R2 : a * ((- b - sq) / (2 * a)) * ((- b - sq) / (2 * a)) + b * ((- b - sq) / (2 * a)) + c == 0).
+    { transitivity ((sq * sq - (b * b - 4 * a * c)) / (4 * a)); [field; exact Ha|]. rewrite Hs. field. exact Ha. }
+    pose proof (sphere_quadratic l s ((- b + sq) / (2 * a))) as Q1. pose proof (sphere_quadratic l s ((- b - sq) / (2 * a))) as Q2.
+    fold a b c in Q1, Q2. split; lra.
+Qed.
